@@ -14,6 +14,7 @@ fn setup() {
     // the decision log is parsed as plain text
     unsafe { std::env::set_var("NO_COLOR", "1") };
     util::install_panic_hooks();
+    util::install_abort_handler();
     // libtest prints "test <name> ... " without a newline; JSON lines must start a line
     println!();
 }
